@@ -11,6 +11,7 @@ CONSTANTS
   Addl <- TAddl
   Ops <- TOps
   MaxWord = 0
+  Letters = {"n", "b"}
 PROPERTY ShrinkProp
 VIEW CheckView
 CHECK_DEADLOCK FALSE
